@@ -429,6 +429,13 @@ func check(bin, dir, prop, tier string, base uint64, workers int, scale float64,
 		fmt.Printf("%s/%s: runs=%d nontrivial=%d distinct=%d steps=%d sim=%.0fs wall=%.1fs aborts=%v failures=%d\n", prop, fr.desc.Name,
 			fr.agg.Runs, fr.agg.Nontrivial, len(fr.sigs), fr.agg.Steps, float64(fr.agg.SimNs)/1e9, fr.wall, fr.agg.Aborts, len(fr.failures))
 		fmt.Printf("  probes=%v faults=%v\n", fr.agg.Probes, fr.agg.Faults)
+		if len(fr.failures) > 0 {
+			cl := map[string]int{}
+			for _, f := range fr.failures {
+				cl[f.Class]++
+			}
+			fmt.Printf("  failing runs by class (first violation of each run): %v\n", cl)
+		}
 	}
 	if exit == 0 && len(probeMissing) > 0 {
 		fmt.Fprintf(os.Stderr, "INFRA: required reach probes stuck at 0: %v (the batch proves nothing)\n", probeMissing)
@@ -543,7 +550,7 @@ func runFamily(bin, dir, prop, tier string, base uint64, workers int, scale floa
 
 // reportFailure shrinks, writes the replay file and confirms it in a fresh process.
 func reportFailure(bin, dir, prop, tier string, base uint64, d famDesc, f failure) *replayFile {
-	shr, out, err := runWorker(bin, dir, job{Prop: prop, Family: d.Name, Mode: "shrink", Tier: tier, Tape: f.Tape, Class: f.Class, WallS: 90}, 1, 4*time.Minute)
+	shr, out, err := runWorker(bin, dir, job{Prop: prop, Family: d.Name, Mode: "shrink", Tier: tier, Tape: f.Tape, Class: f.Class, WallS: 45}, 1, 4*time.Minute)
 	tape := f.Tape
 	shrunk := "not shrunk"
 	if err != nil {
